@@ -325,6 +325,32 @@ def run(ctx):
                     break
         if len(seen) >= 2:
             ctx.nontriv(("saw", X.tobytes(), y.tobytes(), bs, napp, seed))
+    # a LARGE pool: the wrapper encodes the wrapped ranking in ordinal ranks 1..n_candidates plus an annotator utility below 1, so the
+    # order of the samples lives in differences of 1 at magnitude n - any tolerance in the selection helper shows only there
+    from skactiveml.pool import RandomSampling
+
+    class RecRandom(RandomSampling):
+        def query(self, X, y, *a, **kw):
+            out = super().query(X, y, *a, **kw)
+            RECORD.append({"out": out})
+            return out
+    for h in range(2 if ctx.is_quick else 6):
+        n, na = 150000 + 1000 * h, 2
+        X = np.arange(n, dtype=float).reshape(-1, 1)
+        y = np.full((n, na), np.nan)
+        seed = int(rng.integers(0, 1000))
+        RECORD.clear()
+        try:
+            pairs = SingleAnnotatorWrapper(RecRandom(random_state=seed), random_state=seed).query(X=X, y=y, batch_size=4, n_annotators_per_sample=1)
+        except Exception as e:
+            ctx.violation("SingleAnnotatorWrapper", "exception", repr(e)[:300], {"n_samples": n, "seed": seed}, what=f"SingleAnnotatorWrapper raised {type(e).__name__} on a pool of {n} samples")
+            continue
+        ctx.count("SingleAnnotatorWrapper_order_large_pool")
+        inner_order = [int(i) for i in np.asarray(RECORD[-1]["out"][0]).ravel()]
+        seen = [int(s_) for s_, _a in np.asarray(pairs).tolist()]
+        if seen != inner_order[:len(seen)]:
+            ctx.violation("SingleAnnotatorWrapper", "order", f"pool of {n} samples: samples chosen {seen}, wrapped strategy ranked {inner_order}", {"n_samples": n, "n_annotators": na, "batch_size": 4, "seed": seed},
+                          what=f"SingleAnnotatorWrapper does not choose samples in the order the wrapped strategy ranks them on a pool of {n} samples")
     ctx.extra["exhaustive"] = False
 
 
